@@ -148,9 +148,155 @@ def ob_effect_predicate(r, tier, seed, depth):
             detail = 'goml program `let z = zero(); let a = 10 / z; string_println("after")`: emitted main0 contains no division: ' + body.split('func main()')[0][:300].replace('\n', ' | ')
         r.findings.append(Finding(key, 'expr_has_side_effects judges an expression pure that may have an effect (%s): %s' % (why, json.dumps(desc)[:300]), {'expr': desc, 'why': why}, ok, detail))
 
+
+# ----------------------------------------------------------------------------- O9.3 ANF names effects in source order, exactly once, respecting short-circuit and branches
+class LiftGen:
+    """lazily chosen Lift-IR expressions; alongside each expression the *source* effect trace is built:
+    trace = list of events; event = ('call', f) | ('if', then_trace, else_trace) | ('while', cond_trace, body_trace)"""
+    def __init__(s, W, ex, forms):
+        tt = W.tt; s.ex = ex; s.forms = forms; s.n = 0
+        s.LE = tt.find_adt(['lift', 'LiftExpr'], 'compiler'); s.TY = tt.find_adt(['tast', 'Ty'], 'compiler'); s.PR = tt.find_adt(['common', 'Prim'], 'compiler')
+        s.BOP = tt.find_adt(['common_defs', 'BinaryOp'], 'common_defs'); s.UOP = tt.find_adt(['common_defs', 'UnaryOp'], 'common_defs')
+    def ty(s, n, *f): return Agg(s.TY.key, s.TY.vindex(n), list(f))
+    def L(s, n, **kw): return Agg(s.LE.key, s.LE.vindex(n), [kw[f[0]] for f in s.LE.variants[s.LE.vindex(n)].fields])
+    def var(s, n, t='TInt32'): return s.L('EVar', name=mkstr(n), ty=s.ty(t))
+    def call(s, fn, args, t='TInt32'):
+        fty = s.ty('TFunc', PyVec([s.ty('TInt32') for _ in args]), mkbox(s.ty(t)))
+        return s.L('ECall', func=mkbox(s.L('EVar', name=mkstr(fn), ty=fty)), args=PyVec(args), ty=s.ty(t))
+    def boolean(s, depth):
+        """boolean-typed expression + trace"""
+        s.n += 1; me = s.n
+        opts = ['bvar', 'bcall'] + (['and', 'or', 'not', 'less'] if depth > 0 else [])
+        opts = [o for o in opts if o in s.forms or o in ('bvar', 'bcall')]
+        k = s.ex.choose([(True, o) for o in opts])
+        if k == 'bvar': return s.var('b%d' % me, 'TBool'), []
+        if k == 'bcall': return s.call('p%d' % me, [], 'TBool'), [('call', 'p%d' % me)]
+        if k == 'not':
+            e, t = s.boolean(depth - 1); return s.L('EUnary', op=Agg(s.UOP.key, s.UOP.vindex('Not'), []), expr=mkbox(e), ty=s.ty('TBool')), t
+        if k == 'less':
+            a, ta = s.expr(depth - 1); b, tb = s.expr(depth - 1)
+            return s.L('EBinary', op=Agg(s.BOP.key, s.BOP.vindex('Less'), []), lhs=mkbox(a), rhs=mkbox(b), ty=s.ty('TBool')), ta + tb
+        a, ta = s.boolean(depth - 1); b, tb = s.boolean(depth - 1)
+        e = s.L('EBinary', op=Agg(s.BOP.key, s.BOP.vindex('And' if k == 'and' else 'Or'), []), lhs=mkbox(a), rhs=mkbox(b), ty=s.ty('TBool'))
+        # short-circuit: the right operand runs only when the left one does not decide the result
+        return e, ta + ([('if', tb, []) if k == 'and' else ('if', [], tb)] if tb else [])
+    def expr(s, depth):
+        """int-typed expression + trace"""
+        s.n += 1; me = s.n
+        opts = ['var', 'call0'] + ([f for f in ('call1', 'call2', 'add', 'if', 'let', 'tuple', 'while') if f in s.forms] if depth > 0 else [])
+        k = s.ex.choose([(True, o) for o in opts])
+        if k == 'var': return s.var('v%d' % me), []
+        if k == 'call0': return s.call('g%d' % me, []), [('call', 'g%d' % me)]
+        if k == 'call1':
+            a, ta = s.expr(depth - 1); return s.call('h%d' % me, [a]), ta + [('call', 'h%d' % me)]
+        if k == 'call2':
+            a, ta = s.expr(depth - 1); b, tb = s.expr(depth - 1); return s.call('k%d' % me, [a, b]), ta + tb + [('call', 'k%d' % me)]
+        if k == 'add':
+            a, ta = s.expr(depth - 1); b, tb = s.expr(depth - 1)
+            return s.L('EBinary', op=Agg(s.BOP.key, s.BOP.vindex('Add'), []), lhs=mkbox(a), rhs=mkbox(b), ty=s.ty('TInt32')), ta + tb
+        if k == 'tuple':
+            a, ta = s.expr(depth - 1); b, tb = s.expr(depth - 1)
+            tup = s.L('ETuple', items=PyVec([a, b]), ty=s.ty('TTuple', PyVec([s.ty('TInt32'), s.ty('TInt32')])))
+            return s.L('EProj', tuple=mkbox(tup), index=0, ty=s.ty('TInt32')), ta + tb
+        if k == 'if':
+            c, tc = s.boolean(depth - 1); a, ta = s.expr(depth - 1); b, tb = s.expr(depth - 1)
+            return s.L('EIf', cond=mkbox(c), then_branch=mkbox(a), else_branch=mkbox(b), ty=s.ty('TInt32')), tc + [('if', ta, tb)]
+        if k == 'let':
+            a, ta = s.expr(depth - 1); b, tb = s.expr(depth - 1)
+            return s.L('ELet', name=mkstr('x%d' % me), value=mkbox(a), body=mkbox(b), ty=s.ty('TInt32')), ta + tb
+        if k == 'while':
+            c, tc = s.boolean(depth - 1); b, tb = s.expr(depth - 1)
+            w = s.L('EWhile', cond=mkbox(c), body=mkbox(b), ty=s.ty('TUnit'))
+            return s.L('ELet', name=mkstr('w%d' % me), value=mkbox(w), body=mkbox(s.var('v%d' % me)), ty=s.ty('TInt32')), [('while', tc, tb)]
+        raise Unsupported(k)
+
+def anf_trace(W, a):
+    AE = W.tt.find_adt(['anf', 'AExpr'], 'compiler'); CE = W.tt.find_adt(['anf', 'CExpr'], 'compiler'); IE = W.tt.find_adt(['anf', 'ImmExpr'], 'compiler')
+    def T(a):
+        a = unbox(a) if isinstance(a, Agg) and a.ty == 'Box' else a
+        n = AE.variants[a.idx].name; f = dict(zip([x[0] for x in AE.variants[a.idx].fields], a.fields))
+        if n == 'ALet': return C(f['value']) + T(f['body'])
+        return C(f['expr'])
+    def C(c):
+        c = unbox(c) if isinstance(c, Agg) and c.ty == 'Box' else c
+        n = CE.variants[c.idx].name; f = dict(zip([x[0] for x in CE.variants[c.idx].fields], c.fields))
+        if n == 'ECall':
+            fn = f['func']; return [('call', ms.pystr(fn.fields[0]) if IE.variants[fn.idx].name == 'ImmVar' else '?')]
+        if n == 'EIf': return [('if', T(f['then']), T(f['else_']))]
+        if n == 'EWhile': return [('while', T(f['cond']), T(f['body']))]
+        if n == 'EMatch': return [('match', [T(arm.fields[1]) for arm in f['arms'].items], T(f['default'].fields[0]) if f['default'].idx == 1 else None)]
+        if n in ('EDynCall', 'EGo'): return [(n,)]
+        return []
+    return T(a)
+
+def norm_trace(t):
+    """drop conditionals that perform nothing on either side"""
+    out = []
+    for e in t:
+        if e[0] == 'if':
+            a, b = norm_trace(e[1]), norm_trace(e[2])
+            if a or b: out.append(('if', a, b))
+        elif e[0] == 'while': out.append(('while', norm_trace(e[1]), norm_trace(e[2])))
+        else: out.append(e)
+    return out
+
+def ob_anf_order(r, tier, seed, depth, forms, top):
+    W = e2.fresh_world(CRATES)
+    LF = W.tt.find_adt(['lift', 'LiftFn'], 'compiler'); LFILE = W.tt.find_adt(['lift', 'LiftFile'], 'compiler')
+    AFN = W.tt.find_adt(['anf', 'Fn'], 'compiler')
+    r.bounds = 'Lift-IR bodies `f(A1, A2)` / boolean tops with sub-expressions lazily chosen to depth %d among %s; effectful leaves are calls to distinct functions' % (depth, forms)
+    r.assumptions = ['oracle: source trace = left-to-right, innermost first; `&&`/`||` run their right operand only when the left one does not decide; if/while bodies are conditional sub-traces; every call exactly once',
+                     'GlobalAnfEnv::from_lift_env receives an opaque environment (no enum/struct look-ups on these forms)']
+    def entry(ex):
+        g = LiftGen(W, ex, forms)
+        if top == 'call':
+            a1, t1 = g.expr(depth); a2, t2 = g.expr(depth)
+            body = g.call('f', [a1, a2]); src = t1 + t2 + [('call', 'f')]
+        else:
+            body, src = g.boolean(depth + 1)
+        fn = Agg(LF.key, 0, [mkstr('main'), PyVec([]), g.ty('TInt32'), body])
+        h = {0: Agg('compiler::env::Gensym', 0, [Cell_(0)])}
+        res = ex.call('anf::anf_file', [Opaque('liftenv'), Ref(h, 0), Agg(LFILE.key, 0, [PyVec([fn])])])
+        afile = res.fields[0]; afn = afile.fields[0].items[0]
+        ff = dict(zip([x[0] for x in AFN.variants[0].fields], afn.fields))
+        return norm_trace(src), norm_trace(anf_trace(W, ff['body']))
+    W.stubs['anf::<impl at crates/compiler/src/anf.rs:15:1: 15:18>::from_lift_env'] = None
+    W.stubs = {}
+    def ov(f, g):
+        if g.endswith('GlobalAnfEnv::from_lift_env'):
+            def m_from_lift_env(ex, f_, a): return Opaque('anfenv')
+            return m_from_lift_env
+        return None
+    W.overrides = [ov]
+    for n in list(W.methods.get('from_lift_env', [])): W.stubs[n[1]] = lambda ex, a: Opaque('anfenv')
+    res = e2.explore(r, W, entry, [])
+    found = {}
+    for p in res:
+        r.cases += 1
+        if p.kind != 'ok': found.setdefault('panic', ('anf panics: %s' % p.value, None)); continue
+        src, got = p.value
+        if src or got: r.nontrivial += 1
+        if src != got:
+            def has_sc(t): return any(e[0] == 'if' for e in t)
+            flat = lambda t: [x for e in t for x in ([e] if e[0] == 'call' else (flat(e[1]) + flat(e[2]) if e[0] in ('if', 'while') else [e]))]
+            key = 'short-circuit-lost' if flat(src) == flat(got) or sorted(map(str, flat(src))) == sorted(map(str, flat(got))) and top == 'bool' else 'effect-order'
+            if key not in found: found[key] = ('source trace %s, ANF trace %s' % (src, got), (src, got))
+        elif len(r.samples) < 3 and src: r.samples.append({'trace': str(src)})
+    for key, (what, w) in found.items():
+        ok_, detail = True, 'traces read from the anf::File produced by the real anf_file MIR'
+        if key == 'short-circuit-lost':
+            src_prog = 'fn t() -> bool { let _ = string_println("t"); true }\nfn f() -> bool { let _ = string_println("f"); false }\nfn main() -> unit {\n  let x = f() && t();\n  if x { string_println("x") } else { string_println("nx") }\n}\n'
+            go = compile_program(src_prog); body = go[go.find('func main0'):].split('func main()')[0]
+            ok_ = 'func main0' in go and '= t()' in body and body.find('= t()') < body.find('&&')
+            detail = 'goml `let x = f() && t();` emits: ' + body[:260].replace('\n', ' | ')
+        r.findings.append(Finding(key, 'ANF changes the effect trace: ' + what, {'traces': [str(x) for x in (w or ())]}, ok_, detail))
+
 def obligations():
     obs = [Ob('O9.1-effect-predicate-d1', 'DCE effect predicate is sound, depth 1', ob_effect_predicate, ('quick', 'thorough'), 2, dict(depth=1)),
            Ob('O9.1-effect-predicate-d2', 'DCE effect predicate is sound, depth 2', ob_effect_predicate, ('quick', 'thorough'), 10, dict(depth=2))]
+    obs += [Ob('O9.3-anf-order-call-d1', 'ANF keeps the source effect trace: f(A1, A2), depth 1', ob_anf_order, ('quick', 'thorough'), 3, dict(depth=1, forms=['call1', 'call2', 'add', 'if', 'let', 'tuple', 'while', 'and', 'or', 'not', 'less'], top='call')),
+            Ob('O9.3-anf-order-bool-d1', 'ANF keeps short-circuit evaluation of && / ||', ob_anf_order, ('quick', 'thorough'), 3, dict(depth=1, forms=['and', 'or', 'not', 'less', 'call1'], top='bool')),
+            Ob('O9.3-anf-order-call-d2', 'ANF keeps the source effect trace: f(A1, A2), depth 2', ob_anf_order, ('thorough',), 100, dict(depth=2, forms=['call1', 'add', 'if', 'let', 'and', 'or'], top='call'))]
     return obs
 
 META = {
